@@ -69,7 +69,7 @@ class PartResult:
 class Native:
     """A Rust program under /verif/exec/<dir>/main.rs compiled against the real sources."""
 
-    def __init__(self, name, src, env=None, quick_args=(), thorough_args=(), rule='', timeout=900, prepare=None, rustc_args=(), cargo_deps=None):
+    def __init__(self, name, src, env=None, quick_args=(), thorough_args=(), rule='', timeout=900, prepare=None, rustc_args=(), cargo_deps=None, builder=None):
         self.name = name
         self.src = src
         self.env = env or {}
@@ -80,10 +80,14 @@ class Native:
         self.prepare = prepare
         self.rustc_args = list(rustc_args)
         self.cargo_deps = cargo_deps      # text of a [dependencies] section => build with cargo (offline) instead of rustc
+        self.builder = builder            # callable returning the path of a ready binary (custom build)
         self._bin = None
 
     def build(self):
         if self._bin:
+            return self._bin
+        if self.builder is not None:
+            self._bin = self.builder()
             return self._bin
         env = dict(os.environ)
         env['EQLOG_REPO'] = REPO
@@ -138,7 +142,7 @@ class Native:
         t0 = time.time()
         try:
             self.build()
-        except RuntimeError as e:
+        except Exception as e:      # noqa: does not build against the current tree => undecided, never an alarm
             r.status = 'undecided'
             r.reason = 'native-build-failed'
             r.notes.append(str(e))
@@ -148,7 +152,7 @@ class Native:
         res, err = self.run(args)
         r.wall_s = time.time() - t0
         r.rule = self.rule
-        r.checker_cmd = 'rustc -O exec/%s (includes the real source files) && native_%s %s' % (self.src, self.name, ' '.join(args))
+        r.checker_cmd = 'rustc -O exec/%s (includes the real source files) && native_%s %s' % (self.src or 'gen (generated harness around the emitted modules)', self.name, ' '.join(args))
         if err:
             r.status = 'undecided'
             r.reason = 'native-' + err.split(' ')[0]
